@@ -1,4 +1,5 @@
 import SoxrModel.Properties.C12Engine
+import SoxrModel.Cr.Cone
 import Mathlib.Algebra.Ring.Defs
 import Mathlib.Algebra.BigOperators.Group.List.Basic
 import Mathlib.Tactic.Ring
@@ -92,6 +93,64 @@ theorem dot_scaled_table (a : R) (cs : List R) : ∀ (w : List R), dot (cs.map (
       have := ih t
       simp only [dot, List.map_cons, List.zipWith_cons_cons, List.sum_cons] at this ⊢
       rw [this]; ring
+
+/-! ## DC gain on the engine -/
+
+theorem dot_const (v : R) : ∀ (cs : List R) (n : Nat), cs.length ≤ n → dot cs (List.replicate n v) = v * cs.sum := by
+  intro cs
+  induction cs with
+  | nil => intro n _; simp [dot]
+  | cons c cs ih =>
+    intro n h
+    obtain ⟨k, rfl⟩ : ∃ k, n = k + 1 := ⟨n - 1, by simp at h; omega⟩
+    have := ih k (by simpa using h)
+    simp only [dot, List.replicate_succ, List.zipWith_cons_cons, List.sum_cons] at this ⊢
+    rw [this]; ring
+
+/-- every coefficient row of the stage fits its window and sums to one (unity DC gain of the stage) -/
+def RowsUnit (T : StageCfg → Nat → Nat → Nat → List R) (c : StageCfg) (s0 : StageSt) : Prop :=
+  ∀ u p1 p2 p3, (T c p1 p2 p3).length ≤ ulen c s0 u ∧ (T c p1 p2 p3).sum = 1
+
+theorem ufix_of_rows (T : StageCfg → Nat → Nat → Nat → List R) (c : StageCfg) (s0 : StageSt) (h : RowsUnit T c s0) (v : R) :
+    UFix (unitSem (dotKern T) c s0) v := by
+  intro u y hy
+  have hl : (unitSem (dotKern T) c s0).len u = ulen c s0 u := unitSem_len _ c s0 u
+  rw [hl] at hy
+  have key : ∀ p1 p2 p3, dot (T c p1 p2 p3) (List.replicate (ulen c s0 u) v) = v := by
+    intro p1 p2 p3
+    obtain ⟨a, b⟩ := h u p1 p2 p3
+    rw [dot_const v _ _ a, b, mul_one]
+  unfold unitSem at hy
+  cases hk : c.kind <;> simp only [hk, dotKern, List.mem_cons, List.mem_map, List.not_mem_nil, or_false] at hy
+  · rw [hy]; exact key _ _ _
+  · rw [hy]; exact key _ _ _
+  · obtain ⟨j, _, rfl⟩ := hy; exact key _ _ _
+
+theorem planFix_of_rows (T : StageCfg → Nat → Nat → Nat → List R) (v : R) : ∀ (plan : Plan),
+    (∀ p ∈ plan, RowsUnit T p.1 p.2) → PlanFix (dotKern T) v plan := by
+  intro plan
+  induction plan with
+  | nil => intro _; trivial
+  | cons p ps ih =>
+    intro h
+    obtain ⟨c, s0⟩ := p
+    exact ⟨ufix_of_rows T c s0 (h (c, s0) List.mem_cons_self) v, ih (fun q hq => h q (List.mem_cons_of_mem _ hq))⟩
+
+/-- **Unity DC gain of the engine.**  Every stage's rows sum to one; the input is the constant `v` on the cone of the
+    output interval `[lo, hi]`, which lies beyond start-up (`coneS` — executable — is defined only when no window of the
+    cone reaches into a zero preload): then a streaming run with ANY call schedule has delivered `v` on `[lo, hi]`. -/
+theorem dc_gain_runs (T : StageCfg → Nat → Nat → Nat → List R) (v : R) (owed : Nat → Nat) (plan : Plan) (hwf : PlanWF plan)
+    (hrows : ∀ p ∈ plan, RowsUnit T p.1 p.2) (fuel lo hi a b : Nat) (hc : coneS fuel plan lo hi = some (a, b))
+    (ops : List (DOp R)) (x D : List R) (e : DEng R) (r : DRuns (dotKern T) 0 owed (DEng.fresh 0 plan) ops x D e) (f : e.fl = false)
+    (hx : ∀ i, a ≤ i → i ≤ b → x[i]? = some v) :
+    ∀ j, lo ≤ j → j ≤ hi → j < (D ++ e.out).length → (D ++ e.out)[j]? = some v := by
+  obtain ⟨src, hp, hsrc⟩ := streaming_state (dotKern T) 0 owed plan hwf ops x D e r f
+  rw [hsrc]
+  exact coneS_const (dotKern T) 0 v fuel plan lo hi a b hc (planFix_of_rows T v plan hrows) x src hp.toCInv hx
+
+/-- non-vacuity of `dc_gain_runs`: on the example plan the strict cone of output frame 20 is the input interval
+    [47, 71] (frame 3 is still inside start-up: `none`) -/
+example : coneS 1000 exPlan 20 20 = some (47, 71) ∧ coneS 1000 exPlan 3 3 = none := by decide
 
 /-- non-vacuity: the two-tap averaging table over ℤ -/
 example : dot ([1, 1] : List Int) (ladd [3, 4] [10, 20]) = dot [1, 1] [3, 4] + dot [1, 1] [10, 20] := dot_ladd _ _ _ rfl
